@@ -1,15 +1,40 @@
 import LitexModel.Stream.Open
 import LitexModel.Stream.Status
-open Litex Litex.Driver Litex.Stream
+import LitexModel.Packet.Num
+open Litex Litex.Driver Litex.Stream Litex.Packet
+
+def hdrArgs (args : List String) : Option (PkCfg × HdrSpec) := do
+  let ns ← parseNats args
+  match ns with
+  | b :: h :: swap :: nf :: more =>
+    let fs ← parseFields more
+    if fs.length == nf && b ≥ 1 && h ≥ 1 then some ({ B := b, H := h }, { swap := n2b swap, fields := fs }) else none
+  | _ => none
 
 /-- `status` = packet.Status; `chain3 d` = PipeValid ⟫ SyncFIFO(d) ⟫ PipeReady (the mixed 3-element Pipeline of
-    `chain3_*` in LitexProps/C04.lean); everything else is the shared stream-element dispatcher
+    `chain3_*` in LitexProps/C04.lean); the packet.py machines of b-c16 (`LitexModel/Packet/Num.lean`, same names
+    and port orders as Driver/C16.lean); everything else is the shared stream-element dispatcher
     (`Stream/Open.lean`). -/
 def openC04 (args : List String) (hin hout : IO.FS.Stream) : Option (IO Bool) :=
   match args with
   | ["status"] => some (serve numStatus hin hout)
   | ["chain3", d] => d.toNat?.map fun d =>
       serve (numElem ((pipeValid zTok).comp ((syncFifo d zTok).comp (pipeReady zTok)))) hin hout
+  | "packetizer" :: rest => (hdrArgs rest).map fun (c, h) => serve (numPacketizer c h) hin hout
+  | "depacketizer" :: rest => (hdrArgs rest).map fun (c, h) => serve (numDepacketizer c h) hin hout
+  | ["packetfifo", pd, qd] => do
+    let pd ← pd.toNat?
+    let qd ← qd.toNat?
+    some (serve (numPacketFifo pd qd) hin hout)
+  | ["packetfifo_buffered", pd, qd] => do
+    let pd ← pd.toNat?
+    let qd ← qd.toNat?
+    some (serve (numPacketFifoBuffered pd qd) hin hout)
+  | ["arbiter", n] => n.toNat?.map fun n => serve (numArbiter n) hin hout
+  | ["dispatcher", m, oh] => do
+    let m ← m.toNat?
+    let oh ← oh.toNat?
+    some (serve (numDispatcher m (n2b oh)) hin hout)
   | _ => Litex.Stream.openMachine args hin hout
 
 def main : IO Unit := mainLoop openC04 (fun _ => none)
